@@ -187,6 +187,9 @@ def mul(a, b):
 def rep(x, n):
     if not is_sym(x) and not is_sym(n):
         return x * n
+    # canonical form: one repeated byte/character, the unit length folded into the count:  b"\0\0" * n == b"\0" * (2*n)
+    if isinstance(x, (bytes, str)) and len(x) > 1 and len(set(x)) == 1:
+        return op("rep", x[:1], mul(len(x), n))
     return op("rep", x, n)
 
 
@@ -199,6 +202,32 @@ def floordiv(a, b):
 def mod(a, b):
     if not is_sym(a) and not is_sym(b):
         return a % b
+    # canonical form modulo b: multiples of b vanish and an inner (y mod b) is y:   (b - x % b) % b == (-x) % b
+    if is_sym(a) and (a[0] == "lin" or (a[0] == "op" and a[1] == "mod")):
+        try:
+            terms, const = _lin_parts(a)
+        except TypeError:
+            terms = None
+        if terms is not None:
+            out, changed = {}, False
+            for t, c in terms.items():
+                if t == b:
+                    changed = True
+                    continue                                  # c * b
+                if isinstance(t, S) and t[0] == "op" and t[1] == "mod" and t[3] == b:
+                    it, ic = _lin_parts(t[2])
+                    for t2, c2 in it.items():
+                        out[t2] = out.get(t2, 0) + c * c2
+                    const += c * ic
+                    changed = True
+                    continue
+                out[t] = out.get(t, 0) + c
+            if not is_sym(b) and isinstance(b, int) and b > 0 and const % b != const:
+                const, changed = const % b, True
+            if changed:
+                a = _mk_lin(out, const)
+                if not is_sym(a) and not is_sym(b):
+                    return a % b
     return op("mod", a, b)
 
 
@@ -247,7 +276,23 @@ def band(a, b):
     return _comm("and", a, b, lambda x, y: x & y)
 
 
+def _le_word(a, b):
+    """item(E, 0) | item(E, 1) << 8 with E = two bytes (ljust(x[:2], 2, b"\0")) is int.from_bytes(x[:2], "little")"""
+    if isinstance(a, S) and isinstance(b, S) and a[:2] == ("op", "item") and a[3] == 0 and b[:2] == ("op", "shl") and b[3] == 8 \
+            and isinstance(b[2], S) and b[2][:2] == ("op", "item") and b[2][3] == 1 and b[2][2] == a[2]:
+        e = a[2]
+        if isinstance(e, S) and e[:2] == ("op", "ljustb") and len(e) == 5 and e[3] == 2 and e[4] == b"\x00" and isinstance(e[2], S) and e[2][:2] == ("op", "slice") \
+                and tuple(e[2][3:]) == (None, 2, None):
+            return op("from_bytes", e[2], "little")
+    return None
+
+
 def bor(a, b):
+    w = _le_word(a, b)
+    if w is None:
+        w = _le_word(b, a)
+    if w is not None:
+        return w
     return _comm("or", a, b, lambda x, y: x | y)
 
 
